@@ -157,6 +157,9 @@ func (s *sys) restored(what string) (string, string) {
 		return bad("cursor-colour", fmt.Sprintf("the cursor colour is still %q", t.CursorColor))
 	}
 	p := t.Pen
+	if p.Link != "" {
+		return bad("hyperlink", fmt.Sprintf("a hyperlink (OSC 8, %q) is still open: whatever is printed next becomes part of it", p.Link))
+	}
 	p.Link, p.LinkID = "", ""
 	if p != (vt.Pen{}) {
 		return bad("sgr", fmt.Sprintf("colours/attributes are not reset: %+v", t.Pen))
@@ -346,7 +349,9 @@ func (s *sys) Apply(i int) (sig, desc string) {
 	case "hidecursor":
 		s.s.HideCursor()
 	case "draw":
+		// the last cell painted carries a hyperlink: the pen is left inside it
 		s.s.SetContent(1, 0, 'x', nil, tcell.StyleDefault.Foreground(tcell.ColorRed).Bold(true).Underline(true))
+		s.s.SetContent(3, 1, 'y', nil, tcell.StyleDefault.Foreground(tcell.ColorRed).Url("http://u/"))
 		s.s.Show()
 	case "suspend":
 		was := s.m.running
